@@ -106,6 +106,17 @@ let run (id : string) (hdr : string list) (lines : string list list) (out : stri
       | ["cleanconn"; c] :: r -> do_ev (ECleanConn (ni c)); go r
       | ["shutdown"] :: r -> do_ev EShutdown; go r
       | ["failnext"] :: r -> do_ev EFailNext; go r
+      | ["oneshot"; c; kind; k; v] :: r ->
+        (* a BatchWrite of the service: ok / del carry the one operation put K V / delete K (with the
+           empty key, K = 0, that operation itself is the one the service rejects); the other kinds
+           carry put K V and then an operation the service rejects *)
+        let valid = int_of_string k <> 0 in
+        let e = match kind with
+          | "ok" -> EOneShot (ni c, valid, ni k, Some (ni v))
+          | "del" -> EOneShot (ni c, valid, ni k, None)
+          | "emptykey" | "longkey" | "badtype" | "bigvalue" -> EOneShot (ni c, false, ni k, Some (ni v))
+          | _ -> failwith ("C17: bad oneshot kind: " ^ kind) in
+        do_ev e; go r
       | ["probe"] :: r ->
         let c = n_of_int probe_client in
         let o0 = advance () in
